@@ -9,40 +9,15 @@ fn main() {
     if sup::is_worker() {
         sup::worker_main(&|spec| run_case(spec));
     }
+    if let Ok(js) = std::env::var("C02_RUN_ONE") {
+        // development aid: run one case in-process and print its record
+        vcore::install_panic_hook();
+        let out = run_case(&serde_json::from_str(&js).expect("C02_RUN_ONE json"));
+        println!("{}", serde_json::json!({"evals": out.evals, "calls": out.calls, "digests": out.digests.len(),
+            "nontrivial": out.nontrivial.len(), "counters": out.counters, "viols": out.viols.iter().map(|v| v.to_json()).collect::<Vec<_>>()}));
+        return;
+    }
     main_for("C02", body)
-}
-
-/// Identity of a supervisor-level failure (timeout / abort): driver + kind + innermost repo function
-/// (timeouts) or stage (aborts). No counters, no line numbers.
-fn failure_identity(driver: &str, f: &Failure) -> String {
-    match f.kind.as_str() {
-        "timeout" | "silent" => {
-            if f.function.is_empty() {
-                format!("{driver}: timeout in {}", f.stage)
-            } else {
-                format!("{driver}: timeout in {}", f.function)
-            }
-        }
-        _ => {
-            let class = if f.detail.contains("overflowed its stack") {
-                "stack overflow"
-            } else if f.detail.contains("memory allocation") {
-                "allocation failure abort"
-            } else {
-                "abort"
-            };
-            format!("{driver}: {class} in {}", f.stage)
-        }
-    }
-}
-
-fn viol_identity(v: &Viol) -> String {
-    if v.kind == "panic" {
-        let p = v.panic_info();
-        format!("{}: panic at {} [{}]", v.op, p.site(), p.kind())
-    } else {
-        format!("{}: {}", v.op, v.kind)
-    }
 }
 
 struct Agg {
@@ -60,12 +35,21 @@ fn run_cases(run: &Run, label: &str, n: u64, get: &(dyn Fn(u64) -> Value + Sync)
     });
     let t0 = std::time::Instant::now();
     let slowest: Mutex<(u64, u64)> = Mutex::new((0, 0));
-    let res = sup::supervise(
+    let progress = std::sync::atomic::AtomicU64::new(0);
+    let last_print: Mutex<std::time::Instant> = Mutex::new(std::time::Instant::now());
+    let res = sup::supervise_resumable(
         n,
         &|i| get(i).to_string(),
         opts,
         &|i, outcome| {
             let case = &get(i);
+            let done = progress.fetch_add(1, std::sync::atomic::Ordering::Relaxed) + 1;
+            if let Ok(mut lp) = last_print.try_lock() {
+                if lp.elapsed().as_secs() >= 30 {
+                    *lp = std::time::Instant::now();
+                    eprintln!("[c02] {label}: {done} of {n} case results after {:.0}s", t0.elapsed().as_secs_f64());
+                }
+            }
             let driver = case["driver"].as_str().unwrap_or("?");
             match outcome {
                 Outcome::Done(out) => {
@@ -111,6 +95,7 @@ fn run_cases(run: &Run, label: &str, n: u64, get: &(dyn Fn(u64) -> Value + Sync)
                 }
             }
         },
+        &|_, case_json, f| resume_batch(case_json, f),
     );
     match res {
         Err(e) => run.machinery_error(&format!("supervisor: {e}")),
@@ -136,19 +121,6 @@ fn run_cases(run: &Run, label: &str, n: u64, get: &(dyn Fn(u64) -> Value + Sync)
     );
 }
 
-/// Batch drivers: restrict the replay case to the sub-case that failed.
-fn narrow(case: &Value, sub: u64) -> Value {
-    let mut c = case.clone();
-    let batch = matches!(c["driver"].as_str(), Some("ttprog") | Some("cffprog"));
-    if batch && c["only"].is_null() && !c["o1"].is_null() {
-        c["only"] = json!(sub);
-        if c["driver"] == "ttprog" {
-            c["described"] = json!(ttprog::describe(&c));
-        }
-    }
-    c
-}
-
 fn short(case: &Value) -> String {
     let s = case.to_string();
     if s.len() > 300 {
@@ -165,72 +137,38 @@ fn body(run: &Run, replay: Option<&Value>) {
     let quick = run.tier == Tier::Quick;
     let opts = SupOpts {
         workers: std::env::var("VERIF_THREADS").ok().and_then(|s| s.parse().ok()).unwrap_or(16),
-        watchdog_ms: run.tier.pick(4_000, 10_000),
+        watchdog_ms: run.tier.pick(6_000, 10_000),
         chunk: 4,
     };
     if let Some(case) = replay {
-        let mut c = case.clone();
-        if let Some(o) = c.as_object_mut() {
-            o.remove("observed");
-            o.remove("described");
-        }
+        let c = strip_replay_fields(case);
         run_cases(run, "replay", 1, &|_| c.clone(), &SupOpts { workers: 1, ..opts });
         return;
     }
     run.bound("watchdog_ms_per_call", json!(opts.watchdog_ms));
-    // 1a. unmodified corpus, full plan
-    let plan = if quick { "reduced" } else { "full" };
-    let cases = gen_corpus_cases(plan);
-    run.bound("corpus.plan", skdrv::Plan::named(plan).unwrap().describe());
-    run.sample(cases[0].clone());
-    run_cases(run, "corpus", cases.len() as u64, &|i| cases[i as usize].clone(), &SupOpts { chunk: 1, ..opts.clone() });
-    // 1b. one-byte / u16-boundary deviations of the corpus tables
-    // byte budget per table: outline tables and the small fixed headers get more
-    let env_bytes: Option<usize> = std::env::var("C02_DEV_BYTES").ok().and_then(|s| s.parse().ok());
-    let deep = ["glyf", "CFF ", "CFF2", "gvar", "maxp", "head", "hhea"];
-    let (b_deep, b_other) = run.tier.pick((128usize, 48usize), (256, 256));
-    let max_bytes = move |t: &str| env_bytes.unwrap_or(if deep.contains(&t) { b_deep } else { b_other });
-    let dplan = std::env::var("C02_DEV_PLAN").unwrap_or(run.tier.pick("min", "reduced").to_string());
-    let space = gen_deviation_space(&|name, _| !quick || name.starts_with("font-test-data/test_data/ttf/"), &max_bytes);
-    run.bound("deviations.max_bytes_per_table", json!({"glyf,CFF ,CFF2,gvar,maxp,head,hhea": max_bytes("glyf"), "other": max_bytes("name")}));
-    run.bound("deviations.seed_fonts", json!(if quick { "font-test-data/test_data/ttf/* (46)" } else { "whole corpus" }));
-    run.bound("deviations.table_kinds", json!(fontcase::TABLE_KINDS));
-    run.bound("deviations.alphabet", json!({"byte": fontcase::BYTE_ALPHABET, "u16_be": fontcase::U16_ALPHABET}));
-    run.bound("deviations.plan", skdrv::Plan::named(&dplan).unwrap().describe());
-    run.sample(deviation_case(&space[space.len() / 2], &dplan));
-    if std::env::var("C02_SKIP").as_deref() != Ok("dev")
-    {run_cases(run, "deviations", space.len() as u64, &|i| deviation_case(&space[i as usize], &dplan), &opts);}
-    // 2. TrueType program enumeration
-    let pre = ttprog::preludes();
-    let all_pre: Vec<usize> = (0..pre.len()).collect();
-    let maxp_used: Vec<usize> = run.tier.pick(vec![0, 1], vec![0, 1, 2]);
-    let mut tt = ttprog::gen_cases(2, &all_pre, &maxp_used);
-    run.bound("ttprog.length2", json!({"slots": ttprog::SLOTS, "preludes": pre.iter().map(|p| p.0).collect::<Vec<_>>(),
-        "maxp": maxp_used.iter().map(|i| ttprog::MAXP_SETTINGS[*i].0).collect::<Vec<_>>(), "opcodes": 256,
-        "programs_per_slot_prelude_maxp": 1 + 256 + 65536, "sizes": ttprog::SIZES, "targets": ["Mono", "Smooth Normal"], "pedantic": [false, true]}));
-    if !quick {
-        // length 3: the full 256^3 space for the empty and the index-bearing prelude under the small limits
-        let n3_pre: Vec<usize> = if std::env::var("C02_TT_N3").as_deref() == Ok("full") { all_pre.clone() } else { vec![0, 4] };
-        let n3_maxp: Vec<usize> = if std::env::var("C02_TT_N3").as_deref() == Ok("full") { maxp_used.clone() } else { vec![0] };
-        let t3: Vec<Value> = ttprog::gen_cases(3, &n3_pre, &n3_maxp).into_iter().filter(|c| !c["o1"].is_null()).collect();
-        run.bound("ttprog.length3", json!({"preludes": n3_pre.iter().map(|i| pre[*i].0).collect::<Vec<_>>(),
-            "maxp": n3_maxp.iter().map(|i| ttprog::MAXP_SETTINGS[*i].0).collect::<Vec<_>>(), "programs_per_slot_prelude_maxp": 16_777_216u64}));
-        tt.extend(t3);
+    let phases = match phases(quick) {
+        Ok(p) => p,
+        Err(e) => {
+            run.machinery_error(&e);
+            return;
+        }
+    };
+    let only: Option<Vec<String>> = std::env::var("C02_ONLY").ok().map(|s| s.split(',').map(|x| x.to_string()).collect());
+    for ph in &phases {
+        for (k, v) in &ph.bounds {
+            run.bound(k, v.clone());
+        }
+        run.sample(ph.sample.clone());
+        if std::env::var("C02_SKIP").as_deref() == Ok("dev") && ph.label == "deviations" {
+            continue;
+        }
+        if let Some(o) = &only {
+            if !o.iter().any(|x| x == ph.label) {
+                continue;
+            }
+        }
+        run.count(&format!("{}.cases_enumerated", ph.label), ph.n);
+        run_cases(run, ph.label, ph.n, &*ph.get, &SupOpts { chunk: ph.chunk, ..opts.clone() });
     }
-    run.sample(tt[300].clone());
-    run_cases(run, "ttprog", tt.len() as u64, &|i| tt[i as usize].clone(), &SupOpts { chunk: run.tier.pick(16, 1), ..opts.clone() });
-    // 3. CFF charstring enumeration
-    if let Err(e) = cffprog::sanity() {
-        run.machinery_error(&format!("cffprog assembler gate: {e}"));
-        return;
-    }
-    let cn = run.tier.pick(2u32, 3);
-    let cf = cffprog::gen_cases(cn);
-    run.bound("cffprog", json!({"max_tokens": cn, "token_alphabet": cffprog::tokens().len(),
-        "preludes": cffprog::preludes().iter().map(|p| p.0).collect::<Vec<_>>(),
-        "subrs": "global {self-call, return, call local 0}, local {self-call, return, call global 0}",
-        "draws": "unhinted unscaled + 13.5, hinted interpreter (CFF hinter) 13.5, auto-hinter 13.5"}));
-    run.sample(cf[5].clone());
-    run_cases(run, "cffprog", cf.len() as u64, &|i| cf[i as usize].clone(), &SupOpts { chunk: run.tier.pick(4, 1), ..opts.clone() });
+    run.extra("digest_cap_per_case", json!(skdrv::MAX_DIGESTS_PER_CASE));
 }
-
